@@ -1,5 +1,5 @@
 """Property -> rule list. Each rule: (id, text, function(ctx, report))."""
-import rules_cmd, rules_expire, rules_conn, rules_auth, rules_tx, rules_db, rules_zset, rules_rdb, rules_aof
+import rules_cmd, rules_expire, rules_conn, rules_auth, rules_tx, rules_db, rules_zset, rules_rdb, rules_aof, rules_block
 from shared import SERVER
 
 
@@ -80,6 +80,18 @@ def _c11():
     ]
 
 
+def _c13():
+    return [
+        ("R-BLK-POP", "on the wake path an element is popped only under a still-Blocked test of the connection, every Some continuation delivers it, and a failed delivery pushes it back", rules_block.rule_pop),
+        ("R-BLK-STRAND", "a woken client that finds the list empty is registered again", rules_block.rule_strand),
+        ("R-BLK-UNREG", "the waiter handed a wake-up loses all its registrations under the same registry lock; expired clients are removed from every key queue", rules_block.rule_unreg),
+        ("R-BLK-NOTIFY", "every dispatcher arm that can grow a list notifies blocked clients, once per pushed element", rules_block.rule_notify),
+        ("R-BLK-REGPAIR", "blocked_on_key / blocked_keys are updated together; registration and Blocked state are set together", rules_block.rule_regpair),
+        ("R-DISC-SIB", "both connection-removal sites perform the same clean-up set (blocking, pub/sub, monitor)", rules_block.rule_disc_sib),
+        ("R-BLK-EOF", "blocked connections are not excluded from reading (disconnect detection)", rules_block.rule_eof),
+    ]
+
+
 def _c17():
     return [
         ("R-AUTH-GATE", "every privileged call on the frame path is dominated by the pass edge of the authentication gate (in process_frame by dominance and non-reachability from the refuse edge; outside it nothing privileged runs per frame)", rules_auth.rule_gate),
@@ -135,6 +147,7 @@ REGISTRY = {
     "C09": _c09,
     "C10": _c10,
     "C11": _c11,
+    "C13": _c13,
     "C17": _c17,
     "C18": _c18,
 }
